@@ -1263,3 +1263,58 @@ package sarama
 //@   ensures[unchanged_on_error] err != nil ==> msg.Partition == old(msg.Partition)
 //@   ensures[honoured] err == nil ==> exists c :: 0 <= c && c < len(partitions) && msg.Partition == partitions[c]
 //@   callsite Partition: requires[count] $numPartitions == len(partitions) && $numPartitions >= 1
+
+// ---------------------------------------------------------------------------------------------
+// brokerProducer.handleSuccess, first pass over the sent set (C04 offsets, C01 conservation per partition set).
+// retriable(block) := the error classes that are retried when Retry.Max > 0 (left for the second pass).
+
+//@ func (r *ProduceResponse) GetBlock(topic, partition) props C04
+//@   returns b
+//@   ensures[lookup] b == ite(r.Blocks != nil && r.Blocks[topic] != nil, r.Blocks[topic][partition], nil)
+//@   modifies nothing
+
+//@ func brokerProducer.handleSuccess#lit0(topic, partition, pSet) props C04 C01 C05
+//@   per_return
+//@   requires forall i :: 0 <= i && i < len(pSet.msgs) ==> idxOf(pSet.msgs, pSet.msgs[i]) == i
+//@   requires len(pSet.msgs) <= 4294967296
+//@   requires response != nil ==> forall t string, p int32 :: response.Blocks[t] != nil && response.Blocks[t][p] != nil ==> 0 <= response.Blocks[t][p].Offset && response.Blocks[t][p].Offset < 4611686018427387904
+//@   ensures[offsets @C04] response != nil && block != nil && block.Err == ErrNoError ==> forall i :: 0 <= i && i < len(pSet.msgs) ==> pSet.msgs[i].Offset == block.Offset + i
+//@   ensures[duplicate_is_success @C05] response != nil && block != nil && block.Err == ErrDuplicateSequenceNumber ==> forall i :: 0 <= i && i < len(pSet.msgs) ==> pSet.msgs[i].Offset == old(pSet.msgs[i].Offset) && pSet.msgs[i].succEvents == old(pSet.msgs[i].succEvents) + ite(bp.parent.conf.Producer.Return.Successes, 1, 0)
+//@   ensures[disposed_once @C01] response == nil || block == nil || bp.parent.conf.Producer.Retry.Max <= 0 || !(block.Err == ErrInvalidMessage || block.Err == ErrUnknownTopicOrPartition || block.Err == ErrLeaderNotAvailable || block.Err == ErrNotLeaderForPartition || block.Err == ErrRequestTimedOut || block.Err == ErrNotEnoughReplicas || block.Err == ErrNotEnoughReplicasAfterAppend) ==> forall i :: 0 <= i && i < len(pSet.msgs) ==> pSet.msgs[i].disp == old(pSet.msgs[i].disp) + 1
+//@   ensures[left_for_retry @C01] response != nil && block != nil && bp.parent.conf.Producer.Retry.Max > 0 && (block.Err == ErrInvalidMessage || block.Err == ErrUnknownTopicOrPartition || block.Err == ErrLeaderNotAvailable || block.Err == ErrNotLeaderForPartition || block.Err == ErrRequestTimedOut || block.Err == ErrNotEnoughReplicas || block.Err == ErrNotEnoughReplicasAfterAppend) ==> forall i :: 0 <= i && i < len(pSet.msgs) ==> pSet.msgs[i].disp == old(pSet.msgs[i].disp)
+//@   loop 0: invariant arr(pSet.msgs) == old(arr(pSet.msgs)) && off(pSet.msgs) == old(off(pSet.msgs)) && len(pSet.msgs) == old(len(pSet.msgs))
+//@   loop 0: invariant forall j :: 0 <= j && j < len(pSet.msgs) ==> pSet.msgs[j].disp == old(pSet.msgs[j].disp) && pSet.msgs[j].Offset == old(pSet.msgs[j].Offset)
+//@   loop 1: invariant arr(pSet.msgs) == old(arr(pSet.msgs)) && off(pSet.msgs) == old(off(pSet.msgs)) && len(pSet.msgs) == old(len(pSet.msgs))
+//@   loop 1: invariant forall j :: 0 <= j && j < len(pSet.msgs) ==> pSet.msgs[j].disp == old(pSet.msgs[j].disp)
+//@   loop 1: invariant forall j :: 0 <= j && j < $i ==> pSet.msgs[j].Offset == block.Offset + j
+
+// handleError: every message of the sent set, and (for connection-level errors) of the pending buffer, is
+// disposed of exactly once. ps.swept counts the sweeps of a produce set by eachPartition.
+//@ ghost field produceSet.swept int
+
+//@ func (ps *produceSet) eachPartition(cb) trusted
+//@   effect ps.swept == old(ps.swept) + 1
+//@   modifies ps.swept, ProducerMessage.disp, ProducerMessage.errEvents, ProducerMessage.succEvents, ProducerMessage.flags, ProducerMessage.retries, ProducerMessage.sequenceNumber, ProducerMessage.producerEpoch, ProducerMessage.hasSequence, ProducerMessage.Offset, ProducerMessage.Timestamp, transactionManager.producerEpoch, $wg, maps
+
+//@ func brokerProducer.handleError#lit0(topic, partition, pSet) props C01
+//@   requires forall i :: 0 <= i && i < len(pSet.msgs) ==> idxOf(pSet.msgs, pSet.msgs[i]) == i
+//@   ensures[disposed_once] forall i :: 0 <= i && i < len(pSet.msgs) ==> pSet.msgs[i].disp == old(pSet.msgs[i].disp) + 1
+//@ func brokerProducer.handleError#lit1(topic, partition, pSet) props C01
+//@   requires forall i :: 0 <= i && i < len(pSet.msgs) ==> idxOf(pSet.msgs, pSet.msgs[i]) == i && pSet.msgs[i].retries >= 0
+//@   ensures[disposed_once] forall i :: 0 <= i && i < len(pSet.msgs) ==> pSet.msgs[i].disp == old(pSet.msgs[i].disp) + 1
+//@ func brokerProducer.handleError#lit2(topic, partition, pSet) props C01
+//@   requires forall i :: 0 <= i && i < len(pSet.msgs) ==> idxOf(pSet.msgs, pSet.msgs[i]) == i && pSet.msgs[i].retries >= 0
+//@   ensures[disposed_once] forall i :: 0 <= i && i < len(pSet.msgs) ==> pSet.msgs[i].disp == old(pSet.msgs[i].disp) + 1
+
+//@ func (bp *brokerProducer) handleError(sent, err) props C01
+//@   requires sent != bp.buffer && sent != nil && bp.buffer != nil
+//@   ensures[sent_swept] sent.swept == old(sent.swept) + 1
+//@   ensures[buffer_swept] err == nil || dyntype(err) != typeid(PacketEncodingError) ==> forall ps *produceSet :: ps == old(bp.buffer) ==> ps.swept == old(ps.swept) + 1
+//@   ensures[buffer_kept_on_encoding_error] err != nil && dyntype(err) == typeid(PacketEncodingError) ==> bp.buffer == old(bp.buffer) && bp.buffer.swept == old(bp.buffer.swept)
+
+// connection management touches no message, produce set or ghost accounting (A-own)
+//@ func (b *Broker) Close() trusted
+//@   returns err
+//@   modifies nothing
+//@ func (p *asyncProducer) abandonBrokerConnection(broker) trusted
+//@   modifies nothing
